@@ -793,3 +793,49 @@ def selective_yaml(rpcs_all, methods):
     return {"type": "google.api.Service", "config_version": 3, "apis": [{"name": f"{TARGET}.Sel"}],
             "publishing": {"library_settings": [{"version": TARGET, "python_settings": {"common": {
                 "selective_gapic_generation": {"methods": list(methods), "generate_omitted_as_internal": False}}}}]}}
+
+
+# ------------------------------------------------------------------------------------------------ option proto-plus-deps
+def ppdeps_api(r, sub_listed=False):
+    """(dependency request, target request with proto-plus-deps=acme.dep.v1, features): the listed dependency is generated
+    alongside as a proto-plus library; an UNLISTED dependency whose package is a textual-prefix sibling of the listed one stays
+    a _pb2 dependency; optionally a sub-package of the listed one (listed as well)."""
+    feats = {"option-proto-plus-deps"}
+    dep = File("acme/dep/v1/thing.proto", "acme.dep.v1")
+    kind = dep.enum("ThingKind", ["THING_KIND_UNSPECIFIED", ("SMALL", 1), ("LARGE", 7)])
+    thing = dep.message("Thing")
+    part = thing.nested("Part"); part.field("w", 1, r.choice(["double", "sint32", "string"]))
+    thing.field("name", 1, "string").field("kind", 2, ("enum", kind)).field("parts", 3, part.fqn, repeated=True)
+    dep_files = [dep]
+    listed = ["acme.dep.v1"]
+    subm = None
+    if sub_listed:
+        subf = File("acme/dep/v1/common/shared.proto", "acme.dep.v1.common")
+        subm = subf.message("Shared"); subm.field("tag", 1, "string")
+        dep_files.append(subf)
+        listed.append("acme.dep.v1.common")
+        feats.add("listed-sub-package-of-listed-dependency")
+    sib = r.choice(["acme.dep.v1beta1", "acme.dep.v1p1beta1", "acme.dep.v10", "acme.dep.v1_legacy"])
+    feats.add("unlisted-prefix-sibling=" + sib.split(".")[-1])
+    old = File(f"{sib.replace('.', '/')}/old_thing.proto", sib)
+    okind = old.enum("OldKind", ["OLD_KIND_UNSPECIFIED", "ANCIENT"])
+    ot = old.message("OldThing"); ot.field("id", 1, "int32").field("kind", 2, ("enum", okind))
+    other = File("zeta/plain/v1/plain.proto", "zeta.plain.v1")
+    pl = other.message("Plain"); pl.field("p", 1, "bool")
+    main = File(f"{TARGET_DIR}/main.proto", TARGET, deps=[f.proto.name for f in dep_files] + [old.proto.name, other.proto.name])
+    foo = main.message("Foo")
+    n = 1
+    for name, ty in [("thing", thing.fqn), ("old_thing", ot.fqn), ("plain", pl.fqn), ("part", part.fqn)] + ([("shared", subm.fqn)] if subm else []):
+        how = r.choice(["plain", "repeated", "map"])
+        if how == "map":
+            foo.map_field(name, n, r.choice(MAP_KEY_SCALARS), ty)
+        else:
+            foo.field(name, n, ty, repeated=(how == "repeated"))
+        n += 1
+    foo.field("thing_kind", 20, ("enum", kind)).field("old_kind", 21, ("enum", okind), repeated=r.random() < 0.5)
+    foo.field("alt_thing", 30, thing.fqn, oneof="alt").field("alt_old", 31, ot.fqn, oneof="alt").field("alt_text", 32, "string", oneof="alt")
+    bar = main.message("Bar"); bar.field("foo", 1, foo.fqn).field("olds", 2, ot.fqn, repeated=True).field("opt_old", 3, ot.fqn, optional=True)
+    dep_req = apigen.request(dep_files, to_generate=[f.proto.name for f in dep_files], parameter="transport=grpc")
+    req = apigen.request(dep_files + [old, other, main], to_generate=[main.proto.name],
+                         parameter="transport=grpc,proto-plus-deps=" + "+".join(listed))
+    return dep_req, req, sorted(feats)
